@@ -129,7 +129,7 @@ func init() {
 			}
 			w.Flush()
 			f.Close()
-			cmd := exec.Command(drv, "cred", in, out)
+			cmd := driverCmd(c, drv, "cred", in, out)
 			cmd.Env = append(os.Environ(), "PATH="+shim+":"+os.Getenv("PATH"), "VERIF_SHIM_DIR="+dir, "GIT_TERMINAL_PROMPT=0")
 			if b, err := cmd.CombinedOutput(); err != nil {
 				c.Infra("cred driver: %v\n%s", err, core.Tail(string(b), 2000))
